@@ -116,8 +116,8 @@ impl Check for C12 {
     }
     fn cases(&self, tier: Tier) -> u64 {
         match tier {
-            Tier::Quick => 2000,
-            Tier::Thorough => 6000,
+            Tier::Quick => 4000,
+            Tier::Thorough => 12000,
         }
     }
     fn langs(&self) -> Vec<&'static str> {
